@@ -87,7 +87,7 @@ def materialise(snapshot, root):
 
 # ------------------------------------------------------------------ crash points
 
-def crash_states(u, setup, call, pids=PIDS, fmts=FMTS):
+def crash_states(u, setup, call, pids=PIDS, fmts=FMTS, also=()):
     """Run [call] after [setup] once, taking a snapshot of the store directory BEFORE every operation
     (in the model's vocabulary).  -> (list of (op string, snapshot) for op index 0..len-1, final snapshot, outcome, ops)"""
     seq.prepare(u, setup + [call])
@@ -105,6 +105,9 @@ def crash_states(u, setup, call, pids=PIDS, fmts=FMTS):
                 return None
             s = norm.event(ev + (0,))
             if s is None:
+                if ev[0] in also:
+                    with fsmon._Suppress():
+                        snaps.append(("(%s)" % ev[0], snapshot_tree(im.root)))
                 return None
             with fsmon._Suppress():
                 snaps.append((s, snapshot_tree(im.root)))
@@ -251,8 +254,16 @@ def run_faulted(u, setup, call, k, persistent, err=errno.EIO, pids=PIDS, fmts=FM
         fsmon.instrument_store(im.hs)
         im.refresh()
         plan = FaultPlan(im, k, persistent, err)
+        box = []
+
+        def body():
+            plan.main = threading.get_ident()
+            box.append(im.call(call))
         with fsmon.watching(im.root, hook=plan.hook, listdir_sort=tr.make_listdir_sorter(im)) as mon:
-            r = im.call(call)
+            t = threading.Thread(target=body, daemon=True)
+            t.start()
+            t.join(10.0)
+        r = box[0] if box else "HANG"          # the call did not return within 10 s: the thread is abandoned
         res = {"outcome": r, "state": im.state(), "locks": {a: b for a, b in fsmon.locked_lists(im.hs).items() if b},
                "sites": plan.count, "fired": plan.fired}
         if keep:
